@@ -35,10 +35,10 @@ func (e *c11Env) stopHandler(self int) network.StreamHandler {
 			s.Reset()
 			return
 		}
-		seen := &c11StopSeen{s: s}
+		seen := &c11StopSeen{s: s, dst: self}
 		if pi, err := util.PeerToPeerInfoV2(msg.GetPeer()); err == nil && msg.GetType() == pbv2.StopMessage_CONNECT {
 			seen.srcOK = true
-			_ = pi
+			seen.src = pi.ID
 		}
 		if hook != nil {
 			hook()
